@@ -1,7 +1,48 @@
-"""Translators: Rust source under /repo -> coq/Gen/*.v (regenerated on every run)."""
+"""Translators: Rust source under /repo -> coq/Gen/*.v (regenerated on every run).
+
+Dispatcher only.  Every `tr_<name>.py` next to this file is a translator module exposing
+
+    generate(repo, gen_dir) -> dict   (at least {'ok': bool, 'msg': str, 'digest': str})
+
+`run_all(repo, gen_dir, which=None)` imports each of them (or only the names listed in `which`,
+e.g. ["units"]) and calls `generate`.  A module that cannot be imported or that raises is recorded
+as {'ok': False, 'msg': <error naming file/line>, ...} in the returned dict; nothing is raised
+here, so one broken translator cannot take the other properties' checks down.  Translators are
+narrow on purpose and FAIL CLOSED: source text they do not recognise is an error, which the
+calling check reports as a broken correspondence.
+"""
+import glob
+import importlib.util
 import os
+import traceback
+
+HERE = os.path.dirname(os.path.abspath(__file__))
+
+
+def _load(path):
+    name = os.path.basename(path)[:-3]
+    spec = importlib.util.spec_from_file_location("verif_translator_" + name, path)
+    mod = importlib.util.module_from_spec(spec)
+    spec.loader.exec_module(mod)
+    return mod
 
 
 def run_all(repo, gen_dir, which=None):
     os.makedirs(gen_dir, exist_ok=True)
-    return {}
+    out = {}
+    for path in sorted(glob.glob(os.path.join(HERE, "tr_*.py"))):
+        name = os.path.basename(path)[3:-3]
+        if which is not None and name not in which and ("tr_" + name) not in which:
+            continue
+        try:
+            res = _load(path).generate(repo, gen_dir)
+            if not isinstance(res, dict):
+                res = {"ok": True, "msg": str(res)}
+            res.setdefault("ok", True)
+            res.setdefault("msg", "")
+            res.setdefault("digest", "")
+        except Exception as e:  # noqa  fail closed, but never raise out of the dispatcher
+            res = {"ok": False, "msg": "%s: %s" % (type(e).__name__, e), "digest": "",
+                   "trace": traceback.format_exc()[-1500:]}
+        out[name] = res
+    return out
